@@ -20,6 +20,7 @@ type C03Case struct {
 	Root string `json:"root"`
 	Bass string `json:"bass,omitempty"`
 	CLI  bool   `json:"cli,omitempty"`
+	Uni  bool   `json:"uni,omitempty"` // CLI: the accidentals are written with the Unicode signs
 }
 
 // eofGuard turns a lexer that never stops at end of input into a panic the harness can recover.
@@ -102,6 +103,20 @@ func checkC03(c C03Case) *Violation {
 	var degText, baseText string
 	var hasBase, failed bool
 	if c.CLI {
+		if c.Uni {
+			uni := func(n string) string {
+				if len(n) == 2 {
+					return n[:1] + map[byte]string{'#': "♯", 'b': "♭"}[n[1]]
+				}
+				return n
+			}
+			text = uni(c.Root)
+			if c.Bass != "" {
+				text += "/" + uni(c.Bass)
+			}
+			text += "[1]"
+			what = fmt.Sprintf("%q in %s", text, c.Key)
+		}
 		res := crd(text+"\n", "text", "conv", "syllable", "--key", c.Key)
 		if v := cleanOutcome(res); v != nil {
 			v.Msg = what + ": " + v.Msg
@@ -350,6 +365,7 @@ func TestC03(t *testing.T) {
 					if i%cliStep == 0 {
 						cc := c
 						cc.CLI = true
+						cc.Uni = (i/cliStep)%2 == 1
 						r.CaseBC(nt, "through-cli")
 						r.Check(t, checkC03(cc), "c03", cc)
 					}
